@@ -15,7 +15,9 @@ import (
 	"strconv"
 	"strings"
 	"sync"
+	"sync/atomic"
 	"testing"
+	"time"
 )
 
 const maxSamples = 6
@@ -23,20 +25,20 @@ const maxSamples = 6
 // Recorder accumulates per-case coverage facts for one test function.
 type Recorder struct {
 	mu          sync.Mutex
-	Property    string            `json:"property"`
-	Test        string            `json:"test"`
-	Rule        string            `json:"rule"`
-	Evaluations int               `json:"evaluations"`
-	Nontrivial  int               `json:"nontrivial_evaluations"`
-	Prints      map[uint64]bool   `json:"-"`
-	PrintList   []string          `json:"fingerprints"`
-	Classes     map[string]int    `json:"classes"`
-	Samples     []any             `json:"samples"`
-	Assumptions []string          `json:"assumptions"`
-	Exhaustive  bool              `json:"exhaustive"`
-	Extra       map[string]any    `json:"extra"`
-	Known       map[string]int    `json:"known_hits"`
-	Excluded    int               `json:"excluded_known"`
+	Property    string          `json:"property"`
+	Test        string          `json:"test"`
+	Rule        string          `json:"rule"`
+	Evaluations int             `json:"evaluations"`
+	Nontrivial  int             `json:"nontrivial_evaluations"`
+	Prints      map[uint64]bool `json:"-"`
+	PrintList   []string        `json:"fingerprints"`
+	Classes     map[string]int  `json:"classes"`
+	Samples     []any           `json:"samples"`
+	Assumptions []string        `json:"assumptions"`
+	Exhaustive  bool            `json:"exhaustive"`
+	Extra       map[string]any  `json:"extra"`
+	Known       map[string]int  `json:"known_hits"`
+	Excluded    int             `json:"excluded_known"`
 	path        string
 	known       map[string]string // key -> description (status known only)
 	announced   map[string]bool
@@ -245,4 +247,44 @@ func (r *Recorder) Flush() {
 		b, _ = json.Marshal(r)
 	}
 	_ = os.WriteFile(r.path, b, 0o644)
+}
+
+// Await waits for a value on ch for up to `slices` slices of 100 ms of time observed by this process. A single
+// wall-clock deadline is not used for verdicts: if the whole process (or the VM) is paused or starved past the
+// deadline, timer and value become ready together and select picks either. A pause costs one slice here.
+func Await[T any](ch <-chan T, slices int) (v T, ok bool) {
+	for i := 0; i < slices; i++ {
+		select {
+		case v = <-ch:
+			return v, true
+		case <-time.After(100 * time.Millisecond):
+		}
+	}
+	select {
+	case v = <-ch:
+		return v, true
+	default:
+		return v, false
+	}
+}
+
+var (
+	tickOnce sync.Once
+	ticks    atomic.Int64
+)
+
+// Observed returns the time this process has observed passing since the first call, counted in completed 5 ms
+// sleeps of a background goroutine. It never runs ahead of the wall clock and stands still while the process (or
+// the VM) is paused, so a duration measured with it cannot be inflated by a pause; verdicts about "returned within
+// its time-out" are taken on this clock.
+func Observed() time.Duration {
+	tickOnce.Do(func() {
+		go func() {
+			for {
+				time.Sleep(5 * time.Millisecond)
+				ticks.Add(1)
+			}
+		}()
+	})
+	return time.Duration(ticks.Load()) * 5 * time.Millisecond
 }
